@@ -17,8 +17,8 @@ func init() {
 	register("C05", "exploration", runC05)
 }
 
-var quickLens = []int{100, 101, 127, 128, 129, 200, 255, 256, 333, 999, 1000, 1001, 1024, 2048, 4099, 6271, 6272, 6273, 9999, 10000, 10001, 20000, 33333}
-var thoroughLens = []int{100000, 749999, 750000, 750001, 999999, 1000000}
+var quickLens = []int{100, 101, 127, 128, 129, 200, 255, 256, 333, 999, 1000, 1001, 1024, 2048, 4099, 6271, 6272, 6273, 9999, 10000, 10001, 20000, 33333, 65535, 65536, 65537}
+var thoroughLens = []int{100000, 749999, 750000, 750001, 999999, 1000000, 1048575, 1048576, 1048577, 1048583}
 
 func seededLens(r *gen.Rng, k, lo, hi int) []int {
 	out := make([]int, k)
@@ -79,6 +79,24 @@ func runC01(c *ev.Ctx) {
 		}
 	}
 	runSeqWorks(c, works)
+
+	// very many blocks (explicit small block length on a long sequence): a = N/2 up to 10^7.
+	// One at a time (tens of MB each, seconds of exact arithmetic in the reference).
+	type lg struct{ n, m int }
+	// unbiased content: the statistic falls on either side of its mean (below the mean the library's
+	// series branch is taken, above it the continued fraction), so several seeds are run
+	large := []lg{{1 << 25, 2}, {1 << 25, 2}, {1 << 25, 2}, {1 << 25, 4}}
+	if c.Thorough() {
+		large = append(large, lg{40000000, 2}, lg{40000000, 3}, lg{40000000, 7}, lg{100000000, 10}, lg{100000000, 12}, lg{100000000, 64})
+	}
+	for i, l := range large {
+		fam := "uniform"
+		if i >= 4 && i%2 == 0 {
+			fam = "slight"
+		}
+		runSeqWorks(c, []seqWork{{Seq: gen.Seq{Fam: fam, N: l.n, Seed: gen.Mix(seed, 10, uint64(l.n), uint64(l.m), uint64(i))}, Specs: []Spec{{"block", l.m}}}})
+		c.Count("very_many_blocks_cases", 1)
+	}
 
 	// automatic block-length table at its switch points, including 10^8
 	edges := []int{999, 1000, 9999, 10000, 999999, 1000000}
@@ -312,6 +330,20 @@ func runC03(c *ev.Ctx) {
 			}
 		}
 	}
+	// lengths just above powers of two (and their multiples): natural chunk boundaries of blocked
+	// implementations; cheap for these three tests even at 2^21 bits
+	tops := []int{1 << 16, 1 << 20, 2 << 20}
+	if c.Thorough() {
+		tops = append(tops, 1<<17, 1<<18, 1<<19, 3<<20, 1<<22)
+	}
+	for _, base := range tops {
+		for j := -1; j <= 34; j++ {
+			n := base + j
+			fam := []string{"uniform", "slight", "markov"}[(j+1)%3]
+			works = append(works, seqWork{Seq: gen.Seq{Fam: fam, N: n, Seed: gen.Mix(seed, 5, uint64(n))}, Specs: all(n)})
+			c.Count("power_of_two_neighbourhood_lengths", 1)
+		}
+	}
 	if c.Thorough() {
 		works = append(works, famWorks(gen.Mix(seed, 2), gen.Families, thoroughLens, 1, all)...)
 		works = append(works, famWorks(gen.Mix(seed, 3), []string{"uniform", "slight", "biased", "markov"}, seededLens(r, 12, 33333, 1000000), 1, all)...)
@@ -481,6 +513,45 @@ func runC04(c *ev.Ctx) {
 		}
 		works = append(works, seqWork{Seq: gen.Explicit(bits), Specs: []Spec{{T: "maurer"}}, Degenerate: true})
 		c.Count("pattern_starved_maurer_sequences", 1)
+	}
+	// Maurer: prescribed recurrence distances (powers of two and neighbours, first occurrence at those
+	// block numbers): one marked pattern is placed only where the gap / first-occurrence is wanted
+	{
+		gaps := []int{1, 2, 3, 127, 128, 129, 255, 256, 257, 1023, 1024, 1025, 4095, 4096, 4097, 16383, 16384, 16385, 32767, 32768, 32769, 65535, 65536, 65537, 70000}
+		for gi, g := range gaps {
+			for _, first := range []bool{false, true} {
+				rg := gen.NewRng(gen.Mix(seed, 66, uint64(g)))
+				nblk := 1280 + g + 2000 + rg.Intn(5)
+				if first && g <= 1280 {
+					continue
+				}
+				n := 7*nblk + rg.Intn(7)
+				bits := make([]uint8, n)
+				mark := rg.Intn(128)
+				put := func(blk, v int) {
+					for j := 0; j < 7; j++ {
+						bits[blk*7+j] = uint8(v >> uint(6-j) & 1)
+					}
+				}
+				for blk := 0; blk < nblk; blk++ {
+					v := rg.Intn(127)
+					if v >= mark {
+						v++
+					}
+					put(blk, v) // never the marked pattern
+				}
+				if first {
+					put(g-1, mark) // block number g (1-based) is its first occurrence
+				} else {
+					p0 := 1290 + rg.Intn(300)
+					put(p0, mark)
+					put(p0+g, mark)
+				}
+				works = append(works, seqWork{Seq: gen.Explicit(bits), Specs: []Spec{{T: "maurer"}}, Degenerate: true})
+				c.Count("maurer_prescribed_gap_sequences", 1)
+				_ = gi
+			}
+		}
 	}
 	if c.Thorough() {
 		tl := []int{100000, 1000000}
